@@ -390,10 +390,18 @@ pub fn mutate(class: &str, lines: &[Line], info: &CleanInfo, ch: &mut Choices) -
             }
             let mut v = lines.to_vec();
             v.remove(f.last_line);
+            // the entry instruction of the next function, or any label that stands on it (the
+            // removed ret may leave a label of the first function there as well)
+            let mut accept = vec![next.span.0 - 1, next.span.0];
+            let mut k2 = next.span.0 - 1;
+            while k2 > 0 && matches!(v[k2 - 1], Line::Label(_)) {
+                k2 -= 1;
+                accept.push(k2);
+            }
             Some(Mutation {
                 lines: v,
                 expect: "node-in-many-functions",
-                accept: vec![next.span.0 - 1, next.span.0],
+                accept,
                 reg: None,
                 monitor: vec![],
             })
